@@ -42,6 +42,27 @@ Theorem C02_journal_commit_exact : forall s0 s commit s',
        file_pg s' p = match alookup p (l_pages f) with Some q => Some q | None => file_pg s0 p end).
 Proof. exact journal_commit_exact. Qed.
 
+(* a database that grows: every page between the old and the new size is in the file of the transaction with what the
+   database file holds there - also a page SQLite never wrote (a free-list leaf, allocated and freed again within the
+   transaction; the file system put zeros there), which no WriteDatabaseAt call ever announced *)
+Theorem C02_growth_is_captured : forall s commit s',
+  op_commit_journal s commit = (Done, s') ->
+  exists f, ltxdir s' = ltxdir s ++ [f] /\
+    forall p, pageN s < p <= commit -> p <> lockpg s -> exists q, In (p, q) (l_pages f) /\ file_pg s p = Some q.
+Proof. exact commit_journal_covers_growth. Qed.
+
+(* "database created from nothing ... rollback after spill": the transaction that would have created the database is
+   rolled back after it wrote pages; SQLite cuts the file back to nothing and finalises the journal: nothing is
+   published, position, log and (empty) image are what they were *)
+Theorem C02_rolled_back_creation_publishes_nothing : forall s c,
+  writeable s = true -> pageN s = 0 -> dbfile s = [] -> step s (OCommitJournal c) = (Done, with_dirty s []).
+Proof. exact rolled_back_creation. Qed.
+Example C02_rolled_back_creation_nonvacuous :
+  let s := snd (run_group (init 2097153) [OWrite 1 (mkPg (fl 11) 3 false); OWrite 2 (mkPg (fl 12) 0 false); OTruncate 0; OCommitJournal 0]) in
+  (txid s, chk s, pageN s, dbfile s, ltxdir s, dirty s) = (0, 0, 0, [], [], []) /\
+  fst (run_group s [OWrite 1 (mkPg (fl 21) 1 false); OCommitJournal 1]) = 0.
+Proof. vm_compute. split; reflexivity. Qed.
+
 (* the truncate issued after finalisation is accepted only for the committed size, cuts the file
    to it and changes neither position nor log; any other size is refused without change *)
 Theorem C02_post_commit_truncate : forall s n s' o, op_truncate s n = (o, s') ->
